@@ -102,7 +102,15 @@ class StubSim(DynamicOrderSimulation):
             self._roster = ids
             self.next_agent = self._roster
 
+    reorder_at_next_reset = False      # (seeded change C07-r4m2) the next reset re-orders the agents dictionary in place
+
     def reset(self, **kwargs):
+        if self.reorder_at_next_reset:
+            self.reorder_at_next_reset = False
+            d = self.agents                  # the one dictionary the managers share with the simulation
+            items = list(d.items())
+            d.clear()
+            d.update(items[1:] + items[:1])
         self.last_reset_kwargs = dict(kwargs)       # what reached the simulation (adapters and managers hand it on)
         self.ep = 1 if self.flat_ep else self.ep + 1
         self.t = 0
